@@ -227,11 +227,6 @@ func (w *World) sweepsFor(prop string, cfg *RunCfg) []workItem {
 			if c := w.Contracts[fn]; c != nil && contractMentions(c, "C03") {
 				continue
 			}
-			if fn.Name() == "finishDisplay" {
-				// the rendering path (is the final buffer rsafe?) is outside the C03 claim; the
-				// C06 check requires the buffer to be well-formed there
-				continue
-			}
 			dup := false
 			for _, it := range items {
 				if it.fn == fn {
@@ -386,11 +381,11 @@ func propAssumptions(prop string) []string {
 			"C03: declared-safe sources are assumed PII-free: foreign SafeDetailer/SafeFormatter/SafeMessager implementations, ErrorKeyMarker, stdlib sentinel/errno/runtime error texts, Op/Net/Syscall fields of os and net errors, logtags keys, protobuf type URLs, type names",
 			"C03: an application-registered encoder returns PII-free reportable payloads (axioms registered_encoders_safe / registered_leaf_encoders_safe; proved for every encoder the library registers)",
 			"C03: the PII-free wire fields and errno leaf messages received from a peer satisfy the invariant EncodeError ensures on the peer (requires[C03] of DecodeError / decodeErrno)",
-			"C03: the formatting engine's escaping of non-redactable entries and the Sentry event fields are not covered by this check",
+			"C03: the format engine's rendering path is covered from one ASSUMED clause of collectEntry (an entry flagged redactable was filled through redact's printer and keeps its PII inside markers); the Sentry event fields are not covered by this check",
 		}
 	case "C12":
 		return []string{
-			"C12: presence of safe parts inside redact's renderings and inside the Sentry report is not decided (T7; C15 not claimed)",
+			"C12: presence of safe parts inside redact's renderings and inside the Sentry report is not decided (T7; C15 decides the report's structure, not the presence of individual safe strings)",
 			"C12: induction over chain length composes the per-layer contracts through the recursive specifications allSD/foldSD (unfolded per obligation)",
 		}
 	case "C18":
